@@ -551,3 +551,26 @@ func PAddrOf(p Pat) Pat {
 		return n > 0
 	}
 }
+
+// ArgRoles: the single call of callee in f receives arguments matching pats (position 1.. after
+// ctx; nil = any). Used for restore/forward sites where same-typed values can be swapped.
+func (c *Ctx) ArgRoles(f *ssa.Function, callee, key, want string, pats ...Pat) {
+	cl := c.one(f, false, callee)
+	if cl == nil {
+		return
+	}
+	ok := true
+	var found []string
+	for i, p := range pats {
+		a := arg(cl, i+1)
+		if a == nil {
+			ok = false
+			continue
+		}
+		found = append(found, describe(a))
+		if p != nil && !p(a) {
+			ok = false
+		}
+	}
+	c.Check(ok, fk(f, key), cl, want+"; found ("+strings.Join(found, ", ")+")")
+}
